@@ -246,6 +246,7 @@ impl<'a, 'tcx> Cx<'a, 'tcx> {
                                     if let K::Match(_, [_, some_arm], _) = me.kind {
                                         if let hir::PatKind::Struct(_, [field], _) = some_arm.pat.kind {
                                             let mut o = self.base("For", e);
+                                            o.push(("lid", J::Num(arm.body.hir_id.local_id.as_u32() as i64)));
                                             let user = pc;
                                             o.push(("pat", self.pat(field.pat)));
                                             o.push(("iter", self.expr(arg, user)));
@@ -254,6 +255,7 @@ impl<'a, 'tcx> Cx<'a, 'tcx> {
                                         }
                                         if let hir::PatKind::TupleStruct(_, [p], _) = some_arm.pat.kind {
                                             let mut o = self.base("For", e);
+                                            o.push(("lid", J::Num(arm.body.hir_id.local_id.as_u32() as i64)));
                                             let user = pc;
                                             o.push(("pat", self.pat(p)));
                                             o.push(("iter", self.expr(arg, user)));
@@ -387,6 +389,7 @@ impl<'a, 'tcx> Cx<'a, 'tcx> {
                     if let Some(inner) = block.expr {
                         if let K::If(c, t, Some(_)) = inner.kind {
                             let mut o = self.base("While", e);
+                            o.push(("lid", J::Num(e.hir_id.local_id.as_u32() as i64)));
                             let user = pc;
                             o.push(("cond", self.expr(c, user)));
                             o.push(("body", self.expr(t, user)));
@@ -395,6 +398,7 @@ impl<'a, 'tcx> Cx<'a, 'tcx> {
                     }
                 }
                 let mut o = self.base("Loop", e);
+                o.push(("lid", J::Num(e.hir_id.local_id.as_u32() as i64)));
                 o.push(("src", J::s(format!("{:?}", src))));
                 o.push(("body", self.block(block, cur)));
                 J::Obj(o)
@@ -477,12 +481,21 @@ impl<'a, 'tcx> Cx<'a, 'tcx> {
                 o.push(("a", self.expr(a, cur)));
                 J::Obj(o)
             }
-            K::Break(_, v) => {
+            K::Break(dest, v) => {
                 let mut o = self.base("Break", e);
+                if let Ok(t) = dest.target_id {
+                    o.push(("target", J::Num(t.local_id.as_u32() as i64)));
+                }
                 o.push(("e", J::opt(v.map(|x| self.expr(x, cur)))));
                 J::Obj(o)
             }
-            K::Continue(_) => J::Obj(self.base("Continue", e)),
+            K::Continue(dest) => {
+                let mut o = self.base("Continue", e);
+                if let Ok(t) = dest.target_id {
+                    o.push(("target", J::Num(t.local_id.as_u32() as i64)));
+                }
+                J::Obj(o)
+            }
             K::Ret(v) => {
                 let mut o = self.base("Ret", e);
                 o.push(("e", J::opt(v.map(|x| self.expr(x, cur)))));
